@@ -416,6 +416,9 @@ impl<ST: Service> ConnManager<ST> {
     let active_connections = inner.active_connections.clone();
     let shutdown_token = inner.shutdown_token.clone();
 
+    // Register the connection with the manager's tracker, so that `shutdown` waits for it to finish.
+    let _tracker_token = inner.task_tracker.token();
+
     drop(inner);
 
     // Check if we've reached the maximum number of connections
